@@ -29,4 +29,13 @@ StreamEqualsRef == done => u.params = RefPairs(input, mode, plus)
 RefShape == LET n == Cardinality({k \in 1..Len(input) : input[k] = AMP})
                 r == RawPairs(input)
             IN Len(r) = (IF input = <<>> \/ input[Len(input)] = AMP THEN n ELSE n + 1)
+\* the decoder with the further options of the configuration switched off is the plain decoder; with them on (and no 'u' in
+\* the alphabet) it only ever cuts the plain result short at a NUL - the options never invent or reorder bytes
+XConservative == /\ XAgrees(input, mode, plus)
+                 /\ \A ne, nr \in BOOLEAN :
+                      LET x == DecodeX(input, [mode |-> mode, plus |-> plus, udec |-> TRUE, nulenc |-> ne, nulraw |-> nr])
+                          d == Decode(input, mode, plus)
+                      IN /\ Len(x) <= Len(d) /\ x = SubSeq(d, 1, Len(x))
+                         /\ (Len(x) < Len(d) => d[Len(x) + 1] = 0)
+                         /\ (~ne /\ ~nr => x = d)
 =============================================================================
